@@ -1,6 +1,6 @@
 #!/usr/bin/env python3
 """Generate the prompts for independent seeding agents (they get only the property text and a scratch worktree).
-usage: mkseedprompts.py <round-tag> <kind: break|refactor|refactor2|small> <outdir> [ids...]"""
+usage: mkseedprompts.py <round-tag> <kind: break|refactor|refactor2|refactor3|small|small3> <outdir> [ids...]"""
 import json
 import os
 import subprocess
@@ -109,6 +109,8 @@ Final answer: one paragraph per refactoring (directory, function touched, kind o
 
 REFACTOR2 = REFACTOR.replace('''these are the kind of clean-ups a maintainer makes: renaming locals, extracting or inlining a helper,''', '''this round asks for STRUCTURAL clean-ups, at least three of the four must be of these kinds: extracting a block into a new private helper function or method (including one that is called from inside an expression or returns early from a loop), inlining an existing small helper into its only caller, moving a helper to another module of the package and importing it, renaming a private function / method / parameter / attribute consistently, splitting a long function into two phases, merging two small functions, replacing a nested function by a method, introducing a small value object or tuple for values that travel together.  The fourth may be a local idiom change: renaming locals,''')
 
+REFACTOR3 = REFACTOR.replace('''these are the kind of clean-ups a maintainer makes: renaming locals, extracting or inlining a helper,''', '''this round asks for DEEPER structural clean-ups; the refactorings must be of DIFFERENT kinds chosen from: introducing a small class (state plus two or three methods) for values and steps that belong together and using an object of it inside the function; turning a nested function into a method or a callable object; replacing a `while` loop by a `for` loop over a generator (or the reverse), or a hand-written loop by `itertools` / `enumerate` / `zip` / `any` / `next(...)`; splitting a function into a "collect" phase and an "act" phase with an intermediate list; changing a signature consistently (a positional parameter becomes keyword-only, two parameters are merged into one tuple or options object, a default moves from callee to caller) together with all call sites; replacing a chain of conditions by a table of (predicate, action) pairs or by small strategy functions; moving a method to another class or module and delegating; replacing a tuple/dict that travels between two functions by a namedtuple; caching an attribute lookup or a compiled pattern in a module-level or class-level name; un-nesting `try`/`if` with guard clauses.  One of them may instead be a local idiom change: renaming locals,''').replace('FOUR distinct', 'THREE distinct').replace('k = 1..4', 'k = 1..3').replace('Make the four', 'Make the three')
+
 SMALL = '''
 ## What to produce
 
@@ -166,8 +168,8 @@ def main():
         a = d['anchors']
         anchors = 'files: ' + ', '.join(a['files']) + '\n' + '\n'.join('- %s: %s (%s)' % (s['name'], s.get('meaning', ''), s['where']) for s in a.get('state', [])) + '\n' + \
             '\n'.join('- %s (%s)' % (m['name'], m['where']) for m in a.get('mechanism', [])) + '\nobserve at: ' + '; '.join(a.get('observe_at', []))
-        what = {'break': 'seed a property-breaking change into Erotemic/xdoctest (second round)', 'small': 'seed small property-breaking slips into Erotemic/xdoctest', 'refactor': 'behaviour-preserving refactorings of Erotemic/xdoctest', 'refactor2': 'behaviour-preserving structural refactorings of Erotemic/xdoctest'}[kind]
-        text = (HEAD + {'break': BREAK, 'refactor': REFACTOR, 'refactor2': REFACTOR2, 'small': SMALL}[kind]).format(what=what, wt=wt, id=d['id'], title=d['title'], statement=d['statement'], qover=d['quantifier']['over'],
+        what = {'break': 'seed a property-breaking change into Erotemic/xdoctest (second round)', 'small': 'seed small property-breaking slips into Erotemic/xdoctest', 'refactor': 'behaviour-preserving refactorings of Erotemic/xdoctest', 'refactor2': 'behaviour-preserving structural refactorings of Erotemic/xdoctest', 'refactor3': 'behaviour-preserving structural refactorings of Erotemic/xdoctest', 'small3': 'seed small property-breaking slips into Erotemic/xdoctest'}[kind]
+        text = (HEAD + {'break': BREAK, 'refactor': REFACTOR, 'refactor2': REFACTOR2, 'refactor3': REFACTOR3, 'small': SMALL, 'small3': SMALL.replace('FIVE distinct', 'THREE distinct').replace('for the five', 'for the three').replace('k = 1..5', 'k = 1..3').replace('find five', 'find three')}[kind]).format(what=what, wt=wt, id=d['id'], title=d['title'], statement=d['statement'], qover=d['quantifier']['over'],
                                                                          qtext=d['quantifier']['text'], why=d['why_tests_cant'], anchors=anchors, tag=tag)
         open(os.path.join(outdir, '%s-%s.md' % (tag, d['id'])), 'w').write(text)
         print(tag, d['id'], wt)
